@@ -359,10 +359,13 @@ def main(argv=None):
         # a check that lost its tie must not look green
         for ft in result.get("fatal", [])[:20]:
             problems.append({"kind": "harness-fatal", "what": "harness reports a failure of its own machinery: " + str(ft)[:300]})
-        if int(result.get("cases", 0)) < int(hcfg.get("min_cases", 1)):
+        # a replay runs one recorded case: the floors of a full run do not apply (but "nothing ran" still does)
+        min_cases = 1 if args.replay else int(hcfg.get("min_cases", 1))
+        min_compared = 0 if args.replay else int(hcfg.get("min_compared", 1))
+        if int(result.get("cases", 0)) < min_cases:
             problems.append({"kind": "harness-empty", "what": "harness evaluated %s cases (minimum %s): nothing was checked" % (
-                result.get("cases", 0), hcfg.get("min_cases", 1)), "detail": result.get("notes", [])[:10]})
-        if driver and int(result.get("correspondence", {}).get("compared", 0)) < int(hcfg.get("min_compared", 1)):
+                result.get("cases", 0), min_cases), "detail": result.get("notes", [])[:10]})
+        if driver and int(result.get("correspondence", {}).get("compared", 0)) < min_compared:
             problems.append({"kind": "harness-no-correspondence", "what": "no model-vs-implementation comparison was made "
                              "(Lean driver not started or died?)", "detail": result.get("notes", [])[:10]})
         for mm in result.get("correspondence", {}).get("mismatches", [])[:50]:
